@@ -12,6 +12,7 @@ import (
 	"bytes"
 	"errors"
 	"fmt"
+	"io"
 	"strings"
 	"testing"
 	"time"
@@ -403,6 +404,50 @@ func (rn *runner) Exec(op string) string {
 	return "bad-op"
 }
 
+// frameCheck parses the decrypted payload of a packed packet: it must consist of the frames the stub sources
+// can produce (ACK, MAX_DATA, PING, PATH_CHALLENGE, CONNECTION_CLOSE) and PADDING, nothing else.
+func frameCheck(payload []byte, ver protocol.Version) string {
+	fp := wire.NewFrameParser(false, false, false)
+	n := 0
+	data := payload
+	for len(data) > 0 {
+		ft, l, err := fp.ParseType(data, protocol.Encryption1RTT)
+		if err != nil {
+			if err == io.EOF {
+				break
+			}
+			return "bad-type"
+		}
+		data = data[l:]
+		switch {
+		case ft.IsAckFrameType():
+			_, l, err := fp.ParseAckFrame(ft, data, protocol.Encryption1RTT, ver)
+			if err != nil {
+				return "bad-ack"
+			}
+			data = data[l:]
+		case ft.IsStreamFrameType() || ft.IsDatagramFrameType():
+			return "unexpected"
+		default:
+			f, l, err := fp.ParseLessCommonFrame(ft, data, ver)
+			if err != nil {
+				return "bad-frame"
+			}
+			switch f.(type) {
+			case *wire.MaxDataFrame, *wire.PingFrame, *wire.PathChallengeFrame, *wire.ConnectionCloseFrame:
+			default:
+				return "unexpected"
+			}
+			data = data[l:]
+		}
+		n++
+	}
+	if n == 0 {
+		return "empty"
+	}
+	return "ok"
+}
+
 // openPacked delivers a packet the real packer produced to endpoint ep's real packetUnpacker. Tampering: the
 // key-phase bit of the (protected) first byte, or one bit behind the header-protection sample.
 func (rn *runner) openPacked(ep int, p *pkt, t int64, kpflip, bf int) string {
@@ -423,10 +468,8 @@ func (rn *runner) openPacked(ep int, p *pkt, t int64, kpflip, bf int) string {
 	var res string
 	switch {
 	case err == nil:
-		res = fmt.Sprintf("ok wbit=%d dpn=%d", kpBit(kp), int64(pn))
-		if len(dec) == 0 {
-			res = "ok-WRONG-PLAINTEXT"
-		} else if kpflip == 0 && !(bf > 0 && len(data) > off+20) {
+		res = fmt.Sprintf("ok wbit=%d dpn=%d frames=%s", kpBit(kp), int64(pn), frameCheck(dec, rn.ver))
+		if kpflip == 0 && !(bf > 0 && len(data) > off+20) {
 			rn.rcvdOK[p.from] = append(rn.rcvdOK[p.from], p.pn)
 		}
 	case err == wire.ErrInvalidReservedBits:
